@@ -359,7 +359,16 @@ func genC14(tier string, r *core.Rand) Plan {
 	if second {
 		nConn = 2
 	}
-	if accept {
+	// mixed: a listener and a dialer on one TNC: the station is called, the
+	// remote ends that link, then the application calls out itself
+	mixed := accept && r.Chance(0.35)
+	if mixed {
+		t.Inbound = g.connectOK(true)
+		t.InboundRemote = core.Choice(r, targets)
+		t.Dial = append(t.Dial, g.connectOK(false))
+		nConn = 2
+		remoteDisc = true
+	} else if accept {
 		t.Inbound = g.connectOK(true)
 		t.InboundRemote = core.Choice(r, targets)
 		nConn = 1
@@ -374,6 +383,17 @@ func genC14(tier string, r *core.Rand) Plan {
 	for i := 0; i < nConn; i++ {
 		t.Session = append(t.Session, g.session(remoteDisc && i == 0, faultLines))
 	}
+	if mixed && r.Chance(0.4) {
+		// the end of the first link is announced by the state change alone
+		var evs []Ev
+		for _, e := range t.Session[0] {
+			if e.Kind == "ctl" && e.Arg == "DISCONNECTED" {
+				continue
+			}
+			evs = append(evs, e)
+		}
+		t.Session[0] = evs
+	}
 	t.Disc = g.discScript()
 
 	// ---- client script
@@ -386,8 +406,10 @@ func genC14(tier string, r *core.Rand) Plan {
 		p.Steps = append(p.Steps, step("version"))
 	}
 	nWrites := 0
+	nConnect := 0
 	connect := func() {
-		if accept {
+		nConnect++
+		if accept && !(mixed && nConnect > 1) {
 			p.Steps = append(p.Steps, step("accept"))
 			return
 		}
